@@ -362,6 +362,9 @@ func runWire(c Case) kit.Verdict {
 	got = o.received()
 
 	var v kit.Verdict
+	if !m.loop && m.selfInComment && len(got) == 1 && status == 400 {
+		m.loop = true // don't-care: a self-mention inside a comment may be refused or forwarded
+	}
 	if m.loop {
 		if len(got) > 1 {
 			v.Addf("C14/loop/"+loopShape(m)+"/not-detected", "Via lines %q name this instance (%s) but the request reached the origin (answered %d)", m.in["Via"], self, status)
@@ -371,7 +374,7 @@ func runWire(c Case) kit.Verdict {
 		return v
 	}
 	if len(got) != 2 {
-		return kit.Failf("C14/loop/"+falseLoopShape(m, self)+"/false-loop", "Via lines %q do not name this instance (%s) but the origin received %d requests after the probe; client got %q", m.in["Via"], self, len(got)-1, start)
+		return kit.Failf("C14/loop/no-self-entry/false-loop", "Via lines %q do not name this instance (%s) but the origin received %d requests after the probe; client got %q", m.in["Via"], self, len(got)-1, start)
 	}
 	_, oh := parseHead(got[1])
 
